@@ -79,8 +79,8 @@ OPEN = [
   "witness": "p = Parameter(1.0, R1('a')).join(Parameter(2.0, R1('b'))); PINNCondition(module, sampler, residual, parameter=p) -> TypeError",
   "why_not_fixed": "registering the individual Parameters needs a different representation of joined parameters (the join produces a new tensor)"},
  {"id": "KF-C11-dependent-product-n1", "property": "C11", "status": "open", "design_item": "D30",
-  "match": {"kind": "not_uniform", "dep_product": True, "mode": "small"},
-  "what": "ProductDomain whose first factor depends on the second, sample_random_uniform with small n: _sample_uniform_b_points accepts partner values against the maximum volume of the current batch (for n=1 it returns the single partner value without any acceptance), so for small n the partner coordinate is not weighted by the measure of the first factor; the bias vanishes for large n",
+  "match": {"kind": "not_uniform", "dep_product": True},
+  "what": "ProductDomain whose first factor depends on the second, sample_random_uniform with small n: _sample_uniform_b_points accepts partner values against the maximum volume of the current batch (for n=1 it returns the single partner value without any acceptance), so for small n the partner coordinate is not weighted by the measure of the first factor; for large n a small bias (about 1 %) remains because every top-up round thins with its own batch maximum before the rounds are concatenated and truncated (thorough tier: chi-square 210 on 41 dof at N = 150000, 650 at N = 600000)",
   "witness": "Circle(x; radius 1 + 0.25 s) * Interval(s): 3000 calls with n=1, two-sample chi-square against the twin rejection sampler p < 1e-9 (C11 seed 3); E[s] = 0.495 instead of 0.703 in the design experiment e3",
   "why_not_fixed": "with a single proposal there is no maximum volume to accept against; an unbiased n=1 needs a bound of the first factor's volume over the second factor (not available) or a loop with a running maximum - a redesign"},
  {"id": "KF-C05-transformed-boundary-float32", "property": "C05", "status": "open", "design_item": "D53",
